@@ -1,6 +1,7 @@
 package client
 
 import (
+	"bytes"
 	"context"
 	"crypto/sha256"
 	"encoding/binary"
@@ -1354,6 +1355,20 @@ func (c *RemoteClient) sendMessage(ctx context.Context, msg *Message, timeout ti
 	}
 }
 
+// writeMessage serializes the message and writes it to the connection with one write. Messages are
+// written by more than one thread (handshake messages directly, everything else from the send
+// thread) and serializing straight into the connection writes a message field by field, so the
+// fields of two messages could be interleaved.
+func writeMessage(conn net.Conn, msg *Message) error {
+	var buf bytes.Buffer
+	if err := msg.Serialize(&buf); err != nil {
+		return err
+	}
+
+	_, err := conn.Write(buf.Bytes())
+	return err
+}
+
 func (c *RemoteClient) sendDirect(ctx context.Context, msg *Message) error {
 	logger.InfoWithFields(ctx, []logger.Field{
 		logger.String("message", NameForMessageType(msg.Payload.Type())),
@@ -1365,7 +1380,7 @@ func (c *RemoteClient) sendDirect(ctx context.Context, msg *Message) error {
 	}
 	conn := connl.(net.Conn)
 
-	if err := msg.Serialize(conn); err != nil {
+	if err := writeMessage(conn, msg); err != nil {
 		logger.WarnWithFields(ctx, []logger.Field{
 			logger.String("message", NameForMessageType(msg.Payload.Type())),
 		}, "Failed to send message : %s", err)
@@ -1571,7 +1586,7 @@ func sendMessages(ctx context.Context, conn net.Conn,
 			logger.String("message", NameForMessageType(firstMsg.msg.Payload.Type())),
 		}, "Re-sending message")
 
-		if err := firstMsg.msg.Serialize(conn); err != nil {
+		if err := writeMessage(conn, firstMsg.msg); err != nil {
 			logger.WarnWithFields(ctx, []logger.Field{
 				logger.String("message", NameForMessageType(firstMsg.msg.Payload.Type())),
 			}, "Failed to send message : %s", err)
@@ -1588,7 +1603,7 @@ func sendMessages(ctx context.Context, conn net.Conn,
 		case <-interrupt:
 			return nil, nil
 		case msg := <-sendChannel:
-			if err := msg.msg.Serialize(conn); err != nil {
+			if err := writeMessage(conn, msg.msg); err != nil {
 				logger.WarnWithFields(ctx, []logger.Field{
 					logger.String("message", NameForMessageType(msg.msg.Payload.Type())),
 				}, "Failed to send message : %s", err)
